@@ -154,7 +154,21 @@ impl Property for C03 {
         };
         let expect = RefResult { cols: reference.cols.clone(), rows: full_rows.clone(), order_by: reference.order_by.clone(), inexact: reference.inexact, topk: None };
         // analyzed-only plan: schema reference (+ one more executed plan)
-        let analyzed = run_with(case, &sql, vec![], false);
+        // partial rule lists may leave plans the executor was never meant to see (e.g. `LIMIT 0` reaching TopK
+        // without eliminate_limit): a panic there is "not executable", not a finding of this property
+        let guarded = |rules: Rules, one_pass: bool| -> RunOutput {
+            match std::panic::catch_unwind(std::panic::AssertUnwindSafe(|| run_with(case, &sql, rules, one_pass))) {
+                Ok(o) => o,
+                Err(_) => RunOutput {
+                    outcome: DfOutcome::Error(vf_df::ErrInfo { class: ErrClass::Other, stage: Stage::Execute, message: "panic while planning / executing a partial rule set".into() }),
+                    columns: vec![],
+                    optimized_columns: vec![],
+                    plans: None,
+                    elapsed_ms: 0,
+                },
+            }
+        };
+        let analyzed = guarded(vec![], false);
         if analyzed.optimized_columns.is_empty() {
             return base(CaseResult::discard("analyzer-only planning failed"));
         }
@@ -172,7 +186,7 @@ impl Property for C03 {
         let mut runs: Vec<(String, RunOutput)> = vec![("analyzed-only".into(), analyzed.clone()), ("full".into(), full.clone())];
         for sel in &case.sets {
             let (rules, name, one_pass) = rules_for(sel);
-            let out = run_with(case, &sql, rules, one_pass);
+            let out = guarded(rules, one_pass);
             runs.push((name, out));
         }
         for (name, out) in &runs {
